@@ -353,6 +353,10 @@ def destdir_jobs(Job, cfg=CFG_NDEBUG, tier="quick"):
             J("make_name", "h_make_name", ["make_name"])]
 
 
+def c12_extra_open(Job, tier):
+    return openmode_jobs(Job)
+
+
 def c12_extra(Job, tier):
     return destdir_jobs(Job)
 
@@ -360,7 +364,9 @@ def c12_extra(Job, tier):
 # ---- dfs main tail (C11 dfs half) ---------------------------------------------------------------------------------------
 def main_tail_jobs(Job, cfg=CFG_NDEBUG, tier="quick"):
     return [Job("D_dfs_main_tail_%s" % cfg[0], "harness/dfs_main.c", "h_main_tail", enforce=["dfs_main_tail"], defines=list(cfg[1]),
-                extract=ext(["dfs_main_tail"]), tier=tier, cover=True)]
+                extract=ext(["dfs_main_tail", "dfs_main_help"]), tier=tier, cover=True),
+            Job("D_dfs_main_help_%s" % cfg[0], "harness/dfs_main.c", "h_main_help", enforce=["dfs_main_help"], defines=list(cfg[1]),
+                extract=ext(["dfs_main_tail", "dfs_main_help"]), tier=tier)]
 
 
 def c11_jobs(Job, tier):            # noqa: F811
@@ -603,3 +609,47 @@ def prefix_jobs(Job, cfg=CFG_NDEBUG, tier="quick"):
             J("afsp_drive_prefix", "h_drive_prefix", ["afsp_drive_prefix"]),
             J("afsp_directory_prefix", "h_directory_prefix", ["afsp_directory_prefix"]),
             J("afsp_assemble", "h_assemble", ["afsp_assemble"])]
+
+
+def inventory_precheck(repo):
+    found = file_opening_inventory(repo)
+    exp = FILE_OPENING_SITES
+    bad = [f for f in found if not any(f[0] == e[0] and f[1].startswith(e[1]) for e in exp)]
+    missing = [e for e in exp if not any(f[0] == e[0] and f[1].startswith(e[1]) for f in found)]
+    if bad or missing:
+        return "the places where dfs opens or creates files changed (new: %s; gone: %s): the contracts no longer cover all of them" % (bad, missing)
+    return None
+
+
+def openmode_jobs(Job, cfg=CFG_NDEBUG, tier="quick"):
+    g = ["OsFile_open", "gz_open_input"]
+    return [Job("D_osfile_open_%s" % cfg[0], "harness/dfs_openmodes.c", "h_osfile_open", enforce=["OsFile_open"], defines=list(cfg[1]), extract=ext(g), tier=tier,
+                precheck=inventory_precheck),
+            Job("D_gz_open_input_%s" % cfg[0], "harness/dfs_openmodes.c", "h_gz_open", enforce=["gz_open_input"], defines=list(cfg[1]), extract=ext(g), tier=tier)]
+
+
+# every place dfs opens or creates a file (dfs/*.cc, dfs/*.h without tests): the contracts above and those of C11/C12 cover
+# exactly these; a different inventory means the covered set no longer is the whole set -> undecided (exit 2), not a violation
+FILE_OPENING_SITES = [
+    ("dfs/cmd_extract_files.cc", "std::ofstream inf_file(name, std::ofstream::out);"),
+    ("dfs/cmd_extract_files.cc", "std::ofstream outfile(output_body_file, std::ofstream::out);"),
+    ("dfs/cmd_extract_unused.cc", "std::ofstream output(file_name, std::ofstream::binary|std::ofstream::trunc);"),
+    ("dfs/img_fileio.cc", ": file_name_(name), f_(name,"),
+    ("dfs/img_gzfile.cc", "FILE *f = fopen(name.c_str(),"),
+    ("dfs/img_gzfile.cc", "return tmpfile();"),
+]
+
+
+def file_opening_inventory(repo):
+    import glob, re
+    found = []
+    rx = re.compile(r"\b(?:std::)?[io]?fstream\s+\w+\s*\(|\bf_\(name,|\bfopen\s*\(|\btmpfile\s*\(|\bmkstemp\s*\(|\bcreat\s*\(|(?<![\w.>])open\s*\(|\bfreopen\s*\(")
+    for path in sorted(glob.glob(os.path.join(repo, "dfs", "*.cc")) + glob.glob(os.path.join(repo, "dfs", "*.h"))):
+        base = os.path.basename(path)
+        if base.startswith("test_") or "/tests/" in path:
+            continue
+        for line in open(path, encoding="utf-8", errors="replace"):
+            code = line.split("//")[0]
+            if rx.search(code):
+                found.append((os.path.relpath(path, repo), " ".join(code.split())))
+    return found
